@@ -69,7 +69,8 @@ def dispatchAll (st : MState) (line : String) : MState × String :=
      | some (fs, idx, resp) => ({ st with forest := fs, idx := idx }, resp)
      | none => (st, "bad-request"))
   | "forest" :: "prog" :: rest => (st, (handleFanyorder st.forest rest).getD "bad-request")
-  | "forest" :: "spec" :: _ | "forest" :: "specx" :: _ | "forest" :: "specp" :: _ | "forest" :: "specpx" :: _ =>
+  | "forest" :: "spec" :: _ | "forest" :: "specx" :: _ | "forest" :: "specp" :: _ | "forest" :: "specpx" :: _
+  | "forest" :: "specpc" :: _ | "forest" :: "specpk" :: _ | "forest" :: "specpkx" :: _ =>
     let ws := (words line).drop 1
     (st, ((handleFspec st.forest ws).orElse (fun _ => handleFcreationSpec st.forest ws)).getD "bad-request")
   | "forest" :: "fixed" :: rest => (match handleFfixed st.forest rest with | some (fs, resp) => ({ st with forest := fs }, resp) | none => (st, "bad-request"))
